@@ -39,6 +39,13 @@
    5. `match_clause_text`, `regex_literal_decodes`, `regex_decodes_in_tag`, `regex_not_written_for_raw`
                                 every regular expression is written once, escaped, in the positive and the negative clause of a
                                 non-raw tag, decodes back to exactly itself whatever follows, and is not written for raw tags.
+   6. `whereIntAST_render`, `raw64_reassembles`, `raw64_hits_value` (third round)
+                                the integer expression written for a 64-bit raw tag, evaluated with ClickHouse's typing of
+                                toUInt32/toInt64/bitShiftLeft/bitOr over Int32 columns (trusted rules, listed in checks/C26.py),
+                                is the 64-bit value (hi, lo) encode, for every hi and lo; the row storing a requested value hits it.
+   7. `filter_string_meaning`, `filter_strings_select_exactly` (third round)
+                                from the user's filter STRINGS (requestHandler.GetTagFilter: "", raw codes, " 0" = the empty value,
+                                comments and bucket labels of raw tags, mapped and unmapped strings, error cases) to the selected rows.
   Helper lemmas (and `in/notin` clause semantics, `where_skeleton_balanced`) live in SH/Lemmas/Sql.lean.
 -/
 import SH.Lemmas.Sql
@@ -375,5 +382,227 @@ example : isRaw testCfg 3 = false ∧ (str "^a'\\.*$").isEmpty = false := by dec
 /-- raw tag: `regex_not_written_for_raw` applies, no literal at all -/
 example : lits (tagFrags { testCfg with raw := [3] } true 3 { values := [⟨true, true, str "x", 4⟩], re2 := str "^a" }) = [] := by
   decide
+
+
+
+/-! ### integer expressions: the raw64 reassembly -/
+
+theorem whereIntAST_render (c : Cfg) (x : Nat) : (whereIntAST c x).render = whereIntExpr c x := by
+  have h32 : natBytes 32 = str "32" := by decide
+  simp only [whereIntAST, whereIntExpr]
+  split
+  · simp [IExpr.render]
+  · split
+    · split
+      · simp [IExpr.render]
+      · have e1 : str "bitOr(bitShiftLeft(toInt64(toUInt32(" =
+            str "bitOr(" ++ (str "bitShiftLeft(" ++ (str "toInt64(" ++ str "toUInt32(")) := by decide
+        have e2 : str ")),32),toUInt32(" =
+            str ")" ++ (str ")" ++ (str "," ++ (str "32" ++ (str ")" ++ (str "," ++ str "toUInt32("))))) := by decide
+        have e3 : str "))" = str ")" ++ str ")" := by decide
+        simp only [raw64AST, IExpr.render, raw64Expr, h32, e1, e2, e3, List.append_assoc]
+    · simp [IExpr.render]
+
+theorem setWidth_signExtend_32 (x : BitVec 32) : (x.signExtend 64).setWidth 32 = x := by
+  apply BitVec.eq_of_getLsbD_eq
+  intro i hi
+  simp [BitVec.getLsbD_signExtend, hi]
+  omega
+
+theorem shl_or_eq_append (hi lo : BitVec 32) : (hi.zeroExtend 64 <<< 32) ||| lo.zeroExtend 64 = hi ++ lo := by
+  apply BitVec.eq_of_getLsbD_eq
+  intro i hi'
+  rw [BitVec.getLsbD_append]
+  simp only [BitVec.getLsbD_or, BitVec.getLsbD_shiftLeft, BitVec.getLsbD_setWidth, BitVec.zeroExtend]
+  by_cases h : i < 32
+  · simp [h, hi']
+  · have h2 : i - 32 < 64 := by omega
+    have h3 : lo.getLsbD i = false := BitVec.getLsbD_of_ge lo i (by omega)
+    simp [h, hi', h2, h3]
+
+/-- **raw64 reassembly.** For every pair of Int32 column values the expression the builder emits for a 64-bit raw tag
+    evaluates (under ClickHouse's typing of toUInt32 / toInt64 / bitShiftLeft / bitOr) to the signed 64-bit value whose high half
+    is the hi column and whose low half is the lo column — no sign extension of a negative low half leaks into the high half. -/
+theorem raw64_reassembles (e32 : Bytes → BitVec 32) (e64 : Bytes → BitVec 64) (hi lo : Bytes) :
+    (raw64AST hi lo).eval e32 e64 = ⟨true, true, e32 hi ++ e32 lo⟩ := by
+  simp [raw64AST, IExpr.eval, ext32, setWidth_signExtend_32]
+  exact shl_or_eq_append (e32 hi) (e32 lo)
+
+/-- the row that stores exactly the requested 64-bit value `v` (hi = upper half, lo = lower half) makes the expression equal `v` -/
+theorem raw64_hits_value (e32 : Bytes → BitVec 32) (e64 : Bytes → BitVec 64) (hi lo : Bytes) (v : BitVec 64)
+    (hh : e32 hi = v.extractLsb' 32 32) (hl : e32 lo = v.extractLsb' 0 32) :
+    ((raw64AST hi lo).eval e32 e64).bits = v := by
+  rw [raw64_reassembles, hh, hl]
+  apply BitVec.eq_of_getLsbD_eq
+  intro i hi'
+  rw [BitVec.getLsbD_append]
+  by_cases h : i < 32
+  · simp [h]
+  · have h1 : i - 32 < 32 := by omega
+    have h2 : 32 + (i - 32) = i := by omega
+    simp [h, h1, h2]
+
+/-- the expression without the toUInt32 casts (seeded change C26-r3-2) is wrong when bit 31 of the low half is set:
+    hi = 0, lo = 0x80000000 encode 2147483648, the cast-free form gives -2147483648 -/
+def raw64NoCast (hi lo : Bytes) : IExpr := .bor (.shl (.toInt64 (.col32 hi)) 32) (.col32 lo)
+example : ((raw64NoCast [104] [108]).eval (fun n => if n = [108] then 0x80000000#32 else 0#32) (fun _ => 0)).bits.toInt
+    = -2147483648 := by decide
+example : ((raw64AST [104] [108]).eval (fun n => if n = [108] then 0x80000000#32 else 0#32) (fun _ => 0)).bits.toInt
+    = 2147483648 := by decide
+
+
+
+/-! ### from the user's filter strings to the selected rows -/
+
+/-- The meaning of one filter string for a row's tag, stated without GetTagFilter and without the query builder:
+    `""` and a raw code of zero (`" 0"`) are the EMPTY value (integer 0 and, unless the tag is raw, no string value);
+    a raw code `" k"` is the integer k; on a raw tag a bucket label stands for its encoding and a value comment for its raw
+    code (an unknown string requests nothing); any other string is the value itself, stored mapped (its id) or unmapped. -/
+def userWants (lookup : Bytes → Option Int) (leEnc : Option Int) (t : TagCtx) (s : Bytes) (r : TagRow) : Bool :=
+  if s.isEmpty then emptyRow t.isRaw r
+  else if s.head? == some 32 then
+    (match parseCode s with
+     | none => false
+     | some k => if k == 0 then emptyRow t.isRaw r else r.n == k)
+  else if t.isRaw then
+    (match (if t.isLe then leEnc else none) with
+     | some e => r.n == e
+     | none =>
+       match commentKeys t s with
+       | [k] => (match parseCode k with | some kv => r.n == kv | none => false)
+       | _ => false)
+  else (match lookup s with | some id => r.n == id | none => false) || r.s == s
+
+theorem valMatches_tvEmpty (raw : Bool) (r : TagRow) : valMatches raw r tvEmpty = emptyRow raw r := by
+  simp [valMatches, tvEmpty, TagValue.empty]
+
+theorem valMatches_tvM (raw : Bool) (r : TagRow) (k : Int) : valMatches raw r (tvM k) = (r.n == k) := by
+  simp [valMatches, tvM, TagValue.empty]
+
+theorem valMatches_tvBoth (raw : Bool) (r : TagRow) (s : Bytes) (k : Int) (hs : s.isEmpty = false) :
+    valMatches raw r (tvBoth s k) = ((r.n == k) || (!raw && r.s == s)) := by
+  simp [valMatches, tvBoth, TagValue.empty, hs]
+
+/-- **One filter string.** Whenever GetTagFilter accepts the string, the TagValue it returns matches a row exactly when the
+    row's tag has the meaning of the string. (`r.n ≠ -2`: -2 is TagValueIDDoesNotExist, the id GetTagFilter uses for a string
+    without mapping; rows do not hold it.) -/
+theorem filter_string_meaning (lookup : Bytes → Option Int) (leEnc : Option Int) (t : TagCtx) (s : Bytes) (r : TagRow)
+    (v : TagValue) (h : getTagFilter lookup leEnc t s = some v) (hr : r.n ≠ -2) :
+    valMatches t.isRaw r v = userWants lookup leEnc t s r := by
+  have hne : (r.n == tagValueIDDoesNotExist) = false := by simpa [tagValueIDDoesNotExist] using hr
+  simp only [getTagFilter, userWants] at h ⊢
+  by_cases h1 : s.isEmpty = true
+  · simp only [h1, if_true] at h ⊢
+    injection h with h; subst h; exact valMatches_tvEmpty _ _
+  · have h1' : s.isEmpty = false := by simpa using h1
+    simp only [h1', Bool.false_eq_true, if_false] at h ⊢
+    by_cases h2 : (s.head? == some 32) = true
+    · simp only [h2, if_true] at h ⊢
+      cases hp : parseCode s with
+      | none => simp [hp] at h
+      | some k =>
+        simp only [hp] at h ⊢
+        by_cases hk : k = 0
+        · subst hk; simp at h; subst h; simpa using valMatches_tvEmpty _ _
+        · have : (k != 0) = true := by simpa using hk
+          simp only [this, if_true] at h
+          injection h with h; subst h
+          have hk' : (k == 0) = false := by simpa using hk
+          simp [hk', valMatches_tvM]
+    · simp only [h2, Bool.false_eq_true, if_false] at h ⊢
+      by_cases h3 : t.isRaw = true
+      · simp only [h3, if_true] at h ⊢
+        cases hl : (if t.isLe = true then leEnc else none) with
+        | some e => simp only [hl] at h ⊢; injection h with h; subst h; exact valMatches_tvM _ _ _
+        | none =>
+          simp only [hl] at h ⊢
+          simp only [rawComment] at h
+          cases hk : commentKeys t s with
+          | nil =>
+            simp only [hk] at h ⊢
+            injection h with h; subst h
+            simp [valMatches_tvBoth _ _ _ _ h1', hne]
+          | cons k rest =>
+            cases rest with
+            | nil =>
+              simp only [hk] at h ⊢
+              cases hpk : parseCode k with
+              | none => simp [hpk] at h
+              | some kv => simp only [hpk] at h ⊢; injection h with h; subst h; exact valMatches_tvM _ _ _
+            | cons k2 rest2 => simp [hk] at h
+      · have h3' : t.isRaw = false := by simpa using h3
+        simp only [h3', Bool.false_eq_true, if_false] at h ⊢
+        injection h with h; subst h
+        simp only [mapString]
+        cases hl : lookup s with
+        | some id => simp [valMatches_tvBoth _ _ _ _ h1']
+        | none => simp [valMatches_tvBoth _ _ _ _ h1', hne]
+
+/-- GetTagFilter over all strings of a filter (the promql engine aborts the query on the first error) -/
+def convertAll (lookup : Bytes → Option Int) (leOf : Bytes → Option Int) (t : TagCtx) : List Bytes → Option (List TagValue)
+  | [] => some []
+  | s :: ss =>
+    match getTagFilter lookup (leOf s) t s, convertAll lookup leOf t ss with
+    | some v, some vs => some (v :: vs)
+    | _, _ => none
+
+theorem any_valMatches_convertAll (lookup leOf : Bytes → Option Int) (t : TagCtx) (r : TagRow) (hr : r.n ≠ -2) :
+    ∀ (ss : List Bytes) (vs : List TagValue), convertAll lookup leOf t ss = some vs →
+      vs.any (valMatches t.isRaw r) = ss.any (fun s => userWants lookup (leOf s) t s r)
+  | [], vs, h => by simp only [convertAll] at h; injection h with h; subst h; rfl
+  | s :: ss, vs, h => by
+    simp only [convertAll] at h
+    cases h1 : getTagFilter lookup (leOf s) t s with
+    | none => simp [h1] at h
+    | some v =>
+      cases h2 : convertAll lookup leOf t ss with
+      | none => simp [h1, h2] at h
+      | some vs' =>
+        simp only [h1, h2] at h
+        injection h with h; subst h
+        simp [filter_string_meaning lookup (leOf s) t s r v h1 hr, any_valMatches_convertAll lookup leOf t r hr ss vs' h2]
+
+/-- **End to end, from filter strings to selected rows.** If GetTagFilter accepts every string of a filter, the condition
+    the builder writes for the resulting values selects a row exactly when the row's tag has the meaning of one of the strings
+    (inclusion) / of none of them (exclusion) — in particular the EMPTY value `" 0"` selects integer 0 WITHOUT a string value
+    and does not select rows holding an unmapped string. -/
+theorem filter_strings_select_exactly (re : Bytes → Bytes → Bool) (lookup leOf : Bytes → Option Int) (t : TagCtx)
+    (ss : List Bytes) (vs : List TagValue) (r : TagRow) (h : convertAll lookup leOf t ss = some vs) (hr : r.n ≠ -2) :
+    evalAtoms re true r (tagAtoms true t.isRaw ⟨vs, []⟩) = ss.any (fun s => userWants lookup (leOf s) t s r) ∧
+    evalAtoms re false r (tagAtoms false t.isRaw ⟨vs, []⟩) = !ss.any (fun s => userWants lookup (leOf s) t s r) := by
+  have hc : RegexCovers re t.isRaw ⟨vs, []⟩ := by intro _ h2; simp at h2
+  rw [in_selects_exactly re _ _ _ hc, notin_selects_exactly re _ _ _ hc]
+  have : requested re t.isRaw ⟨vs, []⟩ r = ss.any (fun s => userWants lookup (leOf s) t s r) := by
+    simp [requested, any_valMatches_convertAll lookup leOf t r hr ss vs h]
+  simp [this]
+
+
+/-! ### filter strings: examples -/
+
+def toyLookup (s : Bytes) : Option Int := if s == str "prod" then some 17 else none
+def plainTag : TagCtx := { inTags := true, raw := false, isLe := false, comments := [] }
+def rawTag : TagCtx := { inTags := true, raw := true, isLe := false, comments := [(str " 7", str "seven"), (str " 8", str "dup"), (str " 9", str "dup")] }
+/-- `""` and `" 0"` (TagValueCodeZero) are the empty value; raw codes; a mapped and an unmapped string; errors -/
+example : getTagFilter toyLookup none plainTag [] = some tvEmpty := by decide
+example : getTagFilter toyLookup none plainTag (str " 0") = some tvEmpty := by decide
+example : getTagFilter toyLookup none plainTag (str " -3") = some (tvM (-3)) := by decide
+example : getTagFilter toyLookup none plainTag (str "prod") = some (tvBoth (str "prod") 17) := by decide
+example : getTagFilter toyLookup none plainTag (str "it's") = some (tvBoth (str "it's") (-2)) := by decide
+example : getTagFilter toyLookup none plainTag (str " 1x") = none := by decide
+example : getTagFilter toyLookup none plainTag (str " 9223372036854775808") = none := by decide
+example : getTagFilter toyLookup none rawTag (str "seven") = some (tvM 7) := by decide
+example : getTagFilter toyLookup none rawTag (str "dup") = none := by decide
+/-- the hypothesis of `filter_strings_select_exactly` is satisfiable; the empty value does not select an unmapped-string row -/
+example : convertAll toyLookup (fun _ => none) plainTag [str " 0", str "prod"] = some [tvEmpty, tvBoth (str "prod") 17] := by decide
+example : evalAtoms (fun _ _ => false) true ⟨0, str "x"⟩ (tagAtoms true false ⟨[tvEmpty, tvBoth (str "prod") 17], []⟩) = false := by
+  decide
+example : evalAtoms (fun _ _ => false) true ⟨0, []⟩ (tagAtoms true false ⟨[tvEmpty, tvBoth (str "prod") 17], []⟩) = true := by decide
+/-- without the code-zero special case (seeded change C26-r3-1: `" 0"` becomes NewTagValueM(0)) the statement fails: the row
+    (0, "x") holding an unmapped string is matched although only the empty value was requested -/
+example : valMatches false ⟨0, str "x"⟩ (tvM 0) = true ∧ userWants toyLookup none plainTag (str " 0") ⟨0, str "x"⟩ = false := by
+  decide
+/-- `r.n ≠ -2` is needed: a string without mapping is given the id -2, which would match a row holding -2 -/
+example : valMatches false ⟨-2, []⟩ (tvBoth (str "it's") (-2)) = true ∧
+    userWants toyLookup none plainTag (str "it's") ⟨-2, []⟩ = false := by decide
 
 end SH.C26
